@@ -24,8 +24,29 @@ fn prog_alpha() -> Vec<Vec<Op>> {
     ]
 }
 
+fn is_failing(prog: &[Op]) -> bool {
+    prog.iter().any(|o| matches!(o, Op::WriteThenFail(_) | Op::Require(_) | Op::RequireAbsent(_) | Op::BadParentCut))
+}
+
+/// Alphabet of the delete family: an accepted command deletes an inherited fact and a later command of
+/// the same perspective is refused (the refusal's revert must keep the delete's tombstone).
+pub fn delete_alpha() -> Vec<Vec<Op>> {
+    vec![
+        vec![Op::Append, Op::Emit(1)],
+        vec![Op::Put(1, 7), Op::Append],
+        vec![Op::Del(1), Op::Append],
+        vec![Op::WriteThenFail(0)],
+        vec![Op::WriteThenFail(1)],
+        vec![Op::Require(1), Op::Append, Op::Emit(2)],
+    ]
+}
+
 pub fn universes(n_min: usize, n_max: usize, max_special: usize, merges: bool) -> Vec<Dag> {
-    let alpha = prog_alpha();
+    universes_alpha(&prog_alpha(), n_min, n_max, max_special, merges, false)
+}
+
+/// `need_delete`: keep only assignments that contain a `Del` (the rest is covered by `universes`).
+pub fn universes_alpha(alpha: &[Vec<Op>], n_min: usize, n_max: usize, max_special: usize, merges: bool, need_delete: bool) -> Vec<Dag> {
     let mut out = Vec::new();
     for n in n_min..=n_max {
         let mut shape_list = Vec::new();
@@ -38,9 +59,11 @@ pub fn universes(n_min: usize, n_max: usize, max_special: usize, merges: bool) -
             let singles: Vec<usize> = (1..n).filter(|&i| parents[i].len() == 1).collect();
             mcx::enumerate::sequences(alpha.len(), singles.len(), |ps| {
                 let special = ps.iter().filter(|&&p| p != 0).count();
-                let failing = ps.iter().filter(|&&p| (1..=3).contains(&p) || p >= 5).count();
-                let _ = failing;
+                let failing = ps.iter().filter(|&&p| is_failing(&alpha[p])).count();
                 if special > max_special || failing == 0 {
+                    return;
+                }
+                if need_delete && !ps.iter().any(|&p| alpha[p].iter().any(|o| matches!(o, Op::Del(_)))) {
                     return;
                 }
                 let mut nodes = Vec::new();
@@ -101,6 +124,18 @@ pub fn run(args: &Args) {
     for (name, dags, cuts) in fams {
         let ex = run_all(&mut rep, name, &dags, oracles, false, |c, _| c != "hello", |d, f| histories(d, &cuts, f));
         families.push(json!({"family": name, "universes": dags.len(), "executions": ex}));
+    }
+    {
+        // accepted deletes of inherited facts followed by a refusal in the same perspective
+        let nmax = if args.tier == Tier::Thorough { 6 } else { 5 };
+        let dags = universes_alpha(&delete_alpha(), 3, nmax, 3, false, true);
+        let cuts = vec![Cut::None, Cut::Flush, Cut::Commit];
+        crate::sim::STORED_STATE_CHECK.store(true, std::sync::atomic::Ordering::Relaxed);
+        let ex = run_all(&mut rep, "delete", &dags, oracles, false, |c, _| c != "hello", |d, f| histories(d, &cuts, f));
+        crate::sim::STORED_STATE_CHECK.store(false, std::sync::atomic::Ordering::Relaxed);
+        rep.count("delete_family_executions", ex);
+        families.push(json!({"family": "n<=5(6) forks/chains with an accepted delete of an inherited fact and <=3 special commands, cuts {none,flush,commit}", "universes": dags.len(), "executions": ex}));
+        rep.require_nonzero("delete_family_executions");
     }
     {
         // the same oracles on the libc file backend (small universes)
